@@ -16,13 +16,13 @@ def labOf : Option Urls.Id → Option String
   | _ => none
 
 mutual
-def toRender (tag : Urls.Tree → Nat) (fname : Nat → String) : Urls.Tree → Render.ATree
+def toRender (tag : Urls.Tree → Nat) (fname : Nat → String) : Urls.Tree → (Render.ATree String)
   | .node lv id num file kids =>
     .elem { tag := tag (.node lv id num file kids), level := lv, foot := false,
             id := labOf id,
             title := none, ref := (if num = "" then none else some num), name := "" }
           (file.map fname) (toRenderL tag fname kids)
-def toRenderL (tag : Urls.Tree → Nat) (fname : Nat → String) : List Urls.Tree → List Render.ATree
+def toRenderL (tag : Urls.Tree → Nat) (fname : Nat → String) : List Urls.Tree → List (Render.ATree String)
   | [] => []
   | t :: ts => toRender tag fname t :: toRenderL tag fname ts
 end
@@ -31,15 +31,15 @@ end
 @[simp] theorem toRenderL_cons (tag fname t ts) :
     toRenderL tag fname (t :: ts) = toRender tag fname t :: toRenderL tag fname ts := by rw [toRenderL]
 
-theorem strKids_cons' (c cs) : Render.strKids (c :: cs) =
+theorem strKids_cons' (c : Render.ATree String) (cs : List (Render.ATree String)) : Render.strKids (c :: cs) =
     ((Render.child c).1 ++ (Render.strKids cs).1, (Render.child c).2 ++ (Render.strKids cs).2) := by rw [Render.strKids]
-theorem strKids_nil' : Render.strKids [] = ([], []) := by rw [Render.strKids]
+theorem strKids_nil' : Render.strKids ([] : List (Render.ATree String)) = ([], []) := by rw [Render.strKids]
 
-theorem child_none' (a : Render.Attrs) (ks) (h : a.foot = false) : Render.child (.elem a none ks) =
+theorem child_none' (a : Render.Attrs) (ks : List (Render.ATree String)) (h : a.foot = false) : Render.child (.elem a none ks) =
     (.op a.tag :: ((Render.strKids ks).1 ++ [.cl a.tag]), (Render.strKids ks).2) := by
   rw [Render.child]; simp [h]
 
-theorem child_some' (a : Render.Attrs) (n ks) (h : a.foot = false) : Render.child (.elem a (some n) ks) =
+theorem child_some' (a : Render.Attrs) (n : String) (ks : List (Render.ATree String)) (h : a.foot = false) : Render.child (.elem a (some n) ks) =
     ([], (Render.strKids ks).2 ++ (if a.level < Render.ENDSECTIONS_LEVEL then Render.footOutL ks else ([], [])).2
         ++ [(n, .lop a.tag :: (.op a.tag :: ((Render.strKids ks).1 ++ [.cl a.tag])
               ++ (if a.level < Render.ENDSECTIONS_LEVEL then Render.footOutL ks else ([], [])).1 ++ [.lcl a.tag]))]) := by
@@ -77,7 +77,7 @@ theorem inl_mem_fileToks (tag fname lv id num f kids) (x : Render.Tok)
   simp [fileToks, h]
 
 /-- where C13's render puts the opening of node `n`'s template, relative to what `url` says -/
-def GoodR (fname : Nat → String) (anc : List Urls.Tree) (inl : List Render.Tok) (files : List Render.File)
+def GoodR (fname : Nat → String) (anc : List Urls.Tree) (inl : List Render.Tok) (files : List (Render.File String))
     (tg : Nat) (u : Url) : Prop :=
   (u.file = walkUp anc ∧ Render.Tok.op tg ∈ inl) ∨
   (∃ f toks, u.file = some f ∧ (fname f, toks) ∈ files ∧ Render.Tok.op tg ∈ toks)
